@@ -125,6 +125,7 @@ def cases(tier, seed):
                 continue
             out.append({"k": "arrays", "s": list(shape), "v": var})
     out.append({"k": "dtypes"})
+    out.append({"k": "twins"})
     out.append({"k": "product"})
     out.sort(key=lambda c: {"arrays": 0, "u3": 1, "product": 2}.get(c["k"], 3))
     return out
@@ -147,6 +148,10 @@ def run_case(case, R):
         check_poly(R, C09.tagged(shape, variant=var), f"tagged{shape}/{var}", CONFIGS, seqlen=2)
         sp3 = C09.tagged(shape, 5, ("q1", "q2", "q10"), variant=var)
         check_poly(R, sp3, f"tagged3{shape}/{var}", CONFIGS[::5], seqlen=1)
+    elif k == "twins":
+        for i, sp in enumerate(space.twin_sequence()):
+            R.state(("twins", i))
+            check_poly(R, sp, f"twin {i} {sp['n']} {sp['t']}", [CONFIGS[0], CONFIGS[9]], seqlen=1)
     elif k == "dtypes":
         for dt, coefs in (("?", [True, True]), ("f8", [0.5, -1.5]), ("c16", [1j, 2 - 1j]), ("i4", [3, -2]), ("f4", [0.25, 2.0]), ("u1", [3, 2])):
             sp = spec(("q0", "q1"), (), [((3, 1), coefs[0]), ((0, 2), coefs[1])], dt)
